@@ -26,7 +26,7 @@ from ._selrules import _world
 
 def make_segment(it: Interp, model: Model, cls_qual: str, env: Inst) -> Inst:
     ci = model.cls(cls_qual)
-    s = it.new_inst(ci, "segment")
+    s = it.harness_inst(ci, "segment")
     s.attrs["env"] = env
     s.attrs["token"] = it.new_opaque("segment.token", model.cls("tokens.Token"))
     sels = it.new_opaque("segment.selectors")
